@@ -6,6 +6,7 @@
 (***************************************************************************)
 EXTENDS Params, Json, IOUtils, Randomization, SequencesExt
 
+VARIABLE gx
 Gen  == IOEnv.VT_GEN
 Tier == IOEnv.VT_TIER
 NMax == atoi(IOEnv.VT_N)
@@ -84,15 +85,72 @@ C19All(u) ==
     \cup { C19Scen(pr, 1, 3, 0, hr.h, "host") : pr \in {<<"udp", "", FALSE>>, <<"tcp", "syn", FALSE>>, <<"icmp", "", FALSE>>}, hr \in HostTable }
 
 ---------------------------------------------------------------------------
+(* C20: TCP method x target capability x injected failure; the expectation is TcpPolicy!Code *)
+TP == INSTANCE TcpPolicy WITH c <- gx, dec <- gx
+C20Scen(m, cap, f, e) ==
+    LET ex == TP!Code(m, cap, f)
+        destReplies == <<[form |-> IF cap = "ack_nosack" THEN "ack_nosack" ELSE "sack", delay_us |-> 5000], [form |-> "synack", delay_us |-> 5000]>>
+        fl == CASE f = "filter1" -> <<[op |-> "setfilter", k |-> 1, class |-> "fatal", run |-> 0]>>
+                [] f = "filter2" -> <<[op |-> "setfilter", k |-> 2, class |-> "fatal", run |-> 0]>>
+                [] f = "write1" -> <<[op |-> "write", k |-> 1, class |-> "fatal", run |-> 0]>>
+                [] f = "read_fatal" -> <<[op |-> "read", k |-> 1, class |-> "fatal", run |-> 0]>>
+                [] OTHER -> <<>>
+    IN [id |-> "C20/" \o m \o "/" \o cap \o "/" \o f \o "/e" \o ToString(e), label |-> m \o "/" \o cap \o "/" \o f \o (IF e > 0 THEN "/e2e" ELSE ""),
+        kind |-> "run", per_flow |-> TRUE, isn32 |-> <<65535, 65400>>,
+        sack_perm |-> (cap # "no_sackperm"), sack_ts |-> (cap = "sack_ok_ts"), no_synack |-> (cap = "no_synack"),
+        extra |-> [expect20 |-> ex @@ [method |-> m, cap |-> cap, fault |-> f]],
+        faults |-> fl,
+        run |-> [Run("tcp", m, FALSE, 1, 4, 1, e) EXCEPT !.listen_port = IF cap = "port_closed" THEN 0 ELSE 443],
+        path |-> PathOf([t \in 1..4 |-> IF t >= 3 THEN destReplies ELSE <<[form |-> "te", from |-> R4(t), delay_us |-> 1000 * t]>>])]
+C20All(u) == { C20Scen(m, cap, f, 0) : m \in TP!Methods, cap \in TP!Caps, f \in TP!Faults }
+             \cup { C20Scen(m, cap, "none", 2) : m \in TP!Methods, cap \in TP!Caps }
+
+---------------------------------------------------------------------------
+(* C11: concurrent traceroutes over one wire: one request's 3 runs + e2e probes, and mixes of concurrent requests of *)
+(* different protocols to the same target; allocator bases near wrap-around; reply interleavings via per-flow delays *)
+WrapBases == { [ipid |-> 65300, echo |-> 65533, seq |-> <<65535, 65500>>, name |-> "wrap"], [ipid |-> 41821, echo |-> 7, seq |-> <<1, 1>>, name |-> "mid"] }
+\* every protocol's destination forms at the destination hop, so that any mix of flows finds its proof of arrival
+MixPath(v6, mn, mx, dt) ==
+    PathOf([t \in mn..mx |->
+        IF t >= dt THEN <<[form |-> "echo", delay_us |-> 5000], [form |-> "du_port", delay_us |-> 5000], [form |-> "sack", delay_us |-> 5000], [form |-> "synack", delay_us |-> 5000]>>
+        ELSE <<[form |-> "te", from |-> IF v6 THEN R6(t) ELSE R4(t), delay_us |-> 1000 * t]>>])
+C11Req(pr, b, ord, q, e) ==
+    [id |-> "C11/req/" \o pr[1] \o pr[2] \o (IF pr[3] THEN "6" ELSE "4") \o "/" \o b.name \o "/o" \o ToString(ord[1] + ord[2]) \o "/" \o ToString(q) \o "-" \o ToString(e),
+     label |-> "request/" \o pr[1] \o pr[2] \o "/" \o b.name, kind |-> "run", per_flow |-> TRUE, sack_perm |-> TRUE, isn32 |-> b.seq, seq_base32 |-> b.seq,
+     ipid_base |-> b.ipid, echo_base |-> b.echo, flow_delay_us |-> ord,
+     run |-> Run(pr[1], pr[2], pr[3], 1, 5, q, e), path |-> PathFor(pr[1], pr[3], 1, 5, 4, 0)]
+MixSets == { <<<<"icmp", "", FALSE>>, <<"udp", "", FALSE>>, <<"tcp", "syn", FALSE>>, <<"tcp", "sack", FALSE>>>>,
+             <<<<"icmp", "", FALSE>>, <<"icmp", "", FALSE>>, <<"icmp", "", FALSE>>>>,
+             <<<<"tcp", "syn", FALSE>>, <<"tcp", "syn", FALSE>>, <<"tcp", "prefer_sack", FALSE>>>>,
+             <<<<"udp", "", FALSE>>, <<"udp", "", FALSE>>, <<"icmp", "", FALSE>>>>,
+             <<<<"icmp", "", TRUE>>, <<"udp", "", TRUE>>, <<"icmp", "", TRUE>>>> }
+C11Mix(ms, b, ord, q) ==
+    LET rp(i) == [Run(ms[i][1], ms[i][2], ms[i][3], 1, 5, q, 1) EXCEPT !.port = 443, !.listen_port = 0] IN
+    [id |-> "C11/mix/" \o ToJson([i \in DOMAIN ms |-> ms[i][1] \o ms[i][2]]) \o "/" \o b.name \o "/o" \o ToString(ord[1] + ord[2]) \o "/" \o ToString(q),
+     label |-> "mix/" \o ms[1][1] \o "+" \o ms[2][1] \o ms[2][2] \o "+" \o ms[3][1] \o ms[3][2] \o "/" \o b.name,
+     kind |-> "run", per_flow |-> TRUE, sack_perm |-> TRUE, isn32 |-> b.seq, seq_base32 |-> b.seq, ipid_base |-> b.ipid, echo_base |-> b.echo, flow_delay_us |-> ord,
+     run |-> [rp(1) EXCEPT !.listen_port = IF \E i \in DOMAIN ms : ms[i][2] \in {"sack", "prefer_sack"} THEN 443 ELSE 0],
+     mix |-> [i \in 1..(Len(ms) - 1) |-> rp(i + 1)], path |-> MixPath(ms[1][3], 1, 5, 4)]
+C11Alloc(pb, eb, cs) ==
+    [id |-> "C11/alloc/" \o ToString(pb) \o "/" \o ToString(eb) \o "/" \o ToJson(cs), label |-> "alloc/" \o ToString(pb), kind |-> "alloc",
+     extra |-> [pid_base |-> pb, echo_base |-> eb, callers |-> cs]]
+C11All(u) ==
+    { C11Req(pr, b, ord, 3, e) : pr \in Protos, b \in WrapBases, ord \in Orders, e \in {0, 2} }
+    \cup { C11Mix(ms, b, ord, q) : ms \in MixSets, b \in WrapBases, ord \in Orders, q \in {1, 2} }
+    \cup { C11Alloc(pb, eb, cs) : pb \in {0, 65000, 65535, 131000}, eb \in {0, 65530, 65535},
+              cs \in { <<[m |-> 255, n |-> 4], [m |-> 255, n |-> 4], [m |-> 30, n |-> 8], [m |-> 1, n |-> 8]>>, <<[m |-> 30, n |-> 20], [m |-> 30, n |-> 20]>> } }
+
+---------------------------------------------------------------------------
 Cases == CASE Gen = "C15" -> C15All(0)
+           [] Gen = "C11" -> C11All(0)
            [] Gen = "C19" -> C19All(0)
+           [] Gen = "C20" -> C20All(0)
            [] OTHER -> {}
 
 ASSUME LET c == Cases
            pk == IF NMax > 0 /\ Cardinality(c) > NMax THEN RandomSubset(NMax, c) ELSE c
        IN /\ ndJsonSerialize(IOEnv.VT_OUT, SetToSeq(pk))
           /\ PrintT(<<"GEN", Gen, Cardinality(c), Cardinality(pk)>>)
-VARIABLE gx
 GInit == gx = 0 /\ prm = 0 /\ dec = 0
 GNext == UNCHANGED <<gx, prm, dec>>
 =============================================================================
